@@ -62,13 +62,14 @@ static vrng g_pr;                  /* perturbation stream (seeded per configurat
 static const char *KNAME[6] = { "silk_NSQ", "silk_NSQ_del_dec", "silk_VAD_GetSA_Q8", "silk_VQ_WMat_EC", "silk_inner_product_FLP", "celt_pitch_xcorr" };
 static long g_nsq_paths[8], g_excluded_sat = 0, g_obs_order10 = 0, g_probe_order10 = 0;        /* 0 voiced 1 unvoiced 2 fast10_16 3 states3/4 4 warped */
 
+static int g_extreme;
 static const char *g_class = "";      /* defect-class tag appended to the replay command (read by known_findings matching) */
 static void viol(const char *exp_, const char *obs)
 {
    g_viol++;
    if (g_viol <= 12)
-      printf("V c15_codec cfg %llu %d %d%s%s | %s | %s (cap=%d frame=%d)\n", (unsigned long long)g_cfg_seed, g_nperturb,
-             g_compare_caps, g_class[0] ? " class=" : "", g_class, exp_, obs, g_cap_now, g_frame_now);
+      printf("V c15_codec %s %llu %d %d%s%s%s | %s | %s (cap=%d frame=%d)\n", g_extreme ? "cfgx" : "cfg", (unsigned long long)g_cfg_seed,
+             g_nperturb, g_compare_caps, g_extreme ? " x" : "", g_class[0] ? " class=" : "", g_class, exp_, obs, g_cap_now, g_frame_now);
    g_class = "";
 }
 static void note_level(int k, int level) { g_calls[k][level & 7]++; g_levels_seen |= 1u << (level & 7); }
@@ -492,7 +493,7 @@ static void gen_pcm(vrng *r, const cfg_t *c, opus_int16 *pcm, int n)
 {
    int i, k, ch = c->ch; double Fs = c->Fs;
    double f0 = 90 + vbelow(r, 200), glide = ((double)vbelow(r, 200) - 100) / 100.0 * 40.0;
-   double amp = c->sigkind == 4 ? 32000 : 2000 + vbelow(r, 12000);
+   double amp = c->sigkind >= 4 ? 32000 : 2000 + vbelow(r, 12000);
    double ph[12] = {0}; double lp = 0;
    for (i = 0; i < n; i++) {
       double t = i / Fs, v = 0, env;
@@ -519,6 +520,15 @@ static void gen_pcm(vrng *r, const cfg_t *c, opus_int16 *pcm, int n)
       case 3: /* silence, then onset */
          v = t < 0.3 ? 0 : 0.6 * sin(2 * M_PI * (150 + 300 * t) * t);
          break;
+      case 5: /* alternating full scale */
+         v = (i & 1) ? 1.03 : -1.03;
+         break;
+      case 6: /* full-scale impulse train at a pitch-like period */
+         v = (i % (int)(Fs / (100 + f0))) == 0 ? 1.03 : ((i % 7) == 0 ? -1.03 : 0.0);
+         break;
+      case 7: /* clipped loud harmonic signal with sudden level changes */
+         v = 4.0 * sin(2 * M_PI * (f0 + glide * t) * t) * ((fmod(t, 0.2) < 0.1) ? 1.0 : 0.001);
+         break;
       default: /* full-scale square / clipping material */
          v = (fmod(t * (200 + f0), 1.0) < 0.5) ? 1.0 : -1.0;
          break;
@@ -530,6 +540,7 @@ static void gen_pcm(vrng *r, const cfg_t *c, opus_int16 *pcm, int n)
    }
 }
 
+static int g_extreme = 0;      /* 1: only configurations that drive the SILK quantisers hard (see `wrapx`) */
 static void gen_cfg(vrng *r, cfg_t *c)
 {
    static const int FS[] = {8000, 12000, 16000, 24000, 48000};
@@ -555,6 +566,14 @@ static void gen_cfg(vrng *r, cfg_t *c)
    c->sigkind = vchance(r, 45) ? 0 : vrange(r, 1, 4);
    c->dtx = vchance(r, 10);
    c->lsb = vchance(r, 80) ? 16 : vrange(r, 8, 24);
+   if (g_extreme) {
+      /* SILK at 8/12/16 kHz, delayed-decision quantiser with 3-4 states (complexity >= 6), loud material */
+      c->Fs = FS[vbelow(r, 3)]; c->app = OPUS_APPLICATION_VOIP; c->mode = MODE_SILK_ONLY;
+      c->complexity = vrange(r, 6, 10);
+      c->frame = c->Fs / 400 * 8; c->nframes = 60;
+      c->bitrate = vchance(r, 30) ? OPUS_AUTO : vrange(r, 6000, 120000) * c->ch;
+      c->bw = OPUS_AUTO; c->sigkind = vchance(r, 70) ? 4 : vrange(r, 5, 7); c->dtx = 0;
+   }
 }
 
 static OpusEncoder *make_enc(const cfg_t *c)
@@ -717,7 +736,11 @@ int main(int argc, char **argv)
    vinstall_traps();
    unsetenv("OPUS_VERIF_ARCH_CAP");
    g_host_arch = opus_select_arch();
-   if (argc >= 6 && !strcmp(argv[1], "wrap")) {
+   if (argc >= 6 && (!strcmp(argv[1], "wrapx") || !strcmp(argv[1], "cfgx"))) g_extreme = 1;
+   if (argc >= 6 && !strcmp(argv[1], "cfgx")) {
+      g_nperturb = atoi(argv[3]); g_print_cfg = 1;
+      run_cfg(strtoull(argv[2], 0, 10), atoi(argv[4]));
+   } else if (argc >= 6 && (!strcmp(argv[1], "wrap") || !strcmp(argv[1], "wrapx"))) {
       vrng r; long i, n = atol(argv[3]);
       r.s = strtoull(argv[2], 0, 10) ^ 0xC0DEC15ULL; r.s = vnext(&r) + 1500;   /* mixed: consecutive seeds give unrelated streams */
       g_nperturb = atoi(argv[4]);
